@@ -5,7 +5,7 @@ P = {
     "level_text": "exploration: for each generated scenario one of the eight transformations is applied and both descriptions are solved and applied by libvna; results must agree to a conditioning-scaled rounding bound (exact and 1e-3-perturbed data as the property allows).",
     "design_ref": "DESIGN.md section 3 C17",
     "sources": ["harness/props/C17.cpp"],
-    "rule": "random scenario (as C01) plus one transformation: T1 through/line/mapped spelling, T2 full vs abbreviated matrices (exact data), T3 order of standards, T4 common complex scale on a and b, T5 unrelated parameters and calibration in the same vnacal_t, T6 one vnacal_new_t per frequency, T7 E12 vs UE14, T8 port renumbering (exact data); non-trivial = the transformation changed the call sequence and the calibration has >= 2 ports; distinct = distinct choice tapes; T5 makes 0..8 unrelated parameters (scalar / vector / unknown) and a helper calibration first and deletes a random subset, and in half of the multi-port cases the calibration under test carries one unknown reflection used on two ports (label T5:shared-unknown)",
+    "rule": "random scenario (as C01) plus one transformation: T1 through/line/mapped spelling, T2 full vs abbreviated matrices (exact data), T3 order of standards, T4 common complex scale on a and b, T5 unrelated parameters and calibration in the same vnacal_t, T6 one vnacal_new_t per frequency, T7 E12 vs UE14, T8 port renumbering (exact data); non-trivial = the transformation changed the call sequence and the calibration has >= 2 ports; distinct = distinct choice tapes; T5 makes 0..8 unrelated parameters (scalar / vector / unknown) and a helper calibration first and deletes a random subset, and in half of the multi-port cases the calibration under test carries one unknown reflection used on two ports (label T5:shared-unknown); T3/T5/T6: two thirds of the cases put vector standards on their own 6..9 knots (smooth non-rational values; data then count as perturbed); T6 modes: fresh vnacal_t per frequency / one vnacal_t with the frequencies descending / one vnacal_t in random order; T4 scales 0.1..10 or 1e-12..1e12",
     "assumptions": COMMON_ASSUME + ["bound 1e4*eps*kappa*10 (exact) / additionally *(1+kappa*1e-3) for perturbed least-squares data"],
     "tiers": tiers(
         quick=[{"name": "rand", "mode": "run", "count": 300, "max_size": 60, "shards": 16, "max_seconds": 75, "shrink_seconds": 60}],
